@@ -261,6 +261,12 @@ theorem eid_cbor_stream_aligned (es : List Eid) (hc : ∀ e ∈ es, CborCanonica
   stream_aligned encEid decEid CborCanonical Dtn7.WireCbor.Lemmas.decEid_encEid
     (fun e _ => Dtn7.WireCbor.Lemmas.encEid_ne_nil e) es hc
 
+/-- Observation (mirrored, not judged: D6 territory): the CBOR decoder does not validate — an ipn endpoint with
+number 0 is accepted (and cannot be re-marshalled), and any unsigned integer in the dtn position means dtn:none. -/
+theorem eid_cbor_unvalidated_witness :
+    decEid [0x82, 2, 0x82, 0, 0] = .ok (.ipn 0 0, []) ∧ checkValid (.ipn 0 0) = false ∧
+    decEid [0x82, 1, 5] = .ok (.none, []) := by decide
+
 /-- `MarshalCbor` (which refuses what `CheckValid` refuses) accepts every valid endpoint. -/
 theorem eid_marshal_accepts_valid (e : Eid) (hv : Valid e) : checkValid e = true :=
   Lemmas.checkValid_of_valid e hv
